@@ -1,11 +1,12 @@
 import Splipy.Lemmas.C04PerSeq
+import Splipy.Lemmas.C07PerWindow
 import Splipy.Lemmas.C08Open
 
 /-!
 # Multiplicity of the split value after the insertion loop of `split` (periodic direction)
 
-`mult b x = bisect_right - bisect_left`.  Every periodic insertion of `x ∈ [start, end)` (guard
-`n ≥ p + k`) raises it by at least one, `continuity` reports `p - mult - 1` when the tolerance
+`mult b x = bisect_right - bisect_left`.  Every periodic insertion of `x ∈ [start, end)` (any valid
+periodic basis, `insertKnot_periodic_window`) raises it by at least one, `continuity` reports `p - mult - 1` when the tolerance
 comparisons are exact, so after inserting `continuity + 1` copies the multiplicity is at least `p`.
 -/
 
@@ -55,84 +56,65 @@ theorem Basis.bisectL_le_bisectR {b : Basis K} (hv : b.Valid) (x : K) : b.bisect
   have h2 := r3' (b.bisectR x) (le_refl _) (by omega)
   exact absurd h1 (not_lt.2 (le_of_lt h2))
 
-/-- One periodic insertion raises the multiplicity of the inserted value by at least one. -/
-theorem mult_insert_periodic (b : Basis K) (hv : b.Valid) (k : ℕ) (hk : b.periodic = (k : Int))
-    (hguard : b.order + k ≤ b.numFunctions) (x : K) (hx : b.start ≤ x ∧ x < b.stop)
+/-- One periodic insertion raises the multiplicity of the inserted value by at least one — every
+valid periodic basis (no guard `n ≥ p + k`; from the array description around the insertion index,
+`insertKnot_periodic_window`). -/
+theorem mult_insert_periodic_all (b : Basis K) (hv : b.Valid) (k : ℕ) (hk : b.periodic = (k : Int))
+    (x : K) (hx : b.start ≤ x ∧ x < b.stop)
     (b' : Basis K) (C : Mat K) (hins : b.insertKnot x = .ok (b', C)) :
     b.mult x + 1 ≤ b'.mult x := by
-  obtain ⟨bk, Ck, h1, hvk, _, _, hsz, _, _, _, _, _, hkn, _⟩ :=
-    insertKnot_periodic b hv k hk hguard x hx
+  obtain ⟨bk, Ck, h1, hR, hkn⟩ := insertKnot_periodic_window b hv k hk x ⟨hx.1, le_of_lt hx.2⟩
   rw [hins] at h1
   have e : b' = bk := (Prod.mk.inj (Except.ok.inj h1)).1
   subst e
+  have hvk : b'.Valid := hR.valid
+  have hsz : b'.knots.size = b.knots.size + 1 := hR.size_eq
   have hmono : Monotone b.kn := hv.kn_mono
   have hp := hv.order_pos
   have hsize := hv.size_ge
-  have hpk : k + 2 ≤ b.order := by
-    rcases hv.periodic_le with h | h
-    · rw [hk] at h; omega
-    · rw [hk] at h; omega
   have hn := numFunctions_periodic b k hk
-  set n := b.numFunctions with hndef
-  set p := b.order with hpdef
-  set mu := b.bisectR x with hmu
-  set lam := b.bisectL x with hlam
   obtain ⟨r1, r2, r3⟩ := bisectRight_spec b.kn hmono x b.knots.size
-  have r1' : mu ≤ b.knots.size := r1
-  have r2' : ∀ i, i < mu → b.kn i ≤ x := r2
-  have r3' : ∀ i, mu ≤ i → i < b.knots.size → x < b.kn i := r3
-  have hll : lam ≤ mu := Basis.bisectL_le_bisectR hv x
-  have hmu2 : mu ≤ n + k + 1 := by
+  have r1' : b.bisectR x ≤ b.knots.size := r1
+  have r2' : ∀ i, i < b.bisectR x → b.kn i ≤ x := r2
+  have hll : b.bisectL x ≤ b.bisectR x := Basis.bisectL_le_bisectR hv x
+  have hmu2 : b.bisectR x ≤ b.knots.size - b.order := by
     by_contra hlt
-    have h2' : b.kn (b.knots.size - p) ≤ x := r2' _ (by omega)
+    have h2' : b.kn (b.knots.size - b.order) ≤ x := r2' _ (by omega)
     exact absurd hx.2 (not_lt.2 h2')
-  have hT : ∀ i, i ≤ p + k → b.kn (i + n) = b.kn i + (b.stop - b.start) := by
-    intro i hi
-    exact hv.ghosts (by rw [hk]; omega) i (by omega)
-  have hTpos : 0 < b.stop - b.start := sub_pos.2 hv.start_lt_stop
-  have hrun : ∀ j, lam ≤ j → j < mu → b.kn j = x := fun j h1 h2 => Basis.kn_of_mem_run hv x j h1 h2
-  -- the new knots on `[lam, mu]`
-  have hnew : ∀ j, lam ≤ j → j ≤ mu → b'.kn j = x := by
+  have hmuEq : b.insertMu x = b.bisectR x := by
+    unfold Basis.insertMu
+    rw [if_pos (by rw [hk]; omega)]
+    exact Nat.min_eq_left hmu2
+  rw [hmuEq] at hkn
+  have hrun : ∀ j, b.bisectL x ≤ j → j < b.bisectR x → b.kn j = x :=
+    fun j h1 h2 => Basis.kn_of_mem_run hv x j h1 h2
+  have hclose : b.bisectR x ≤ b.bisectL x + b.numFunctions := by
+    by_contra hc
+    have := kn_run_le_period hv k hk (b.bisectL x) (b.bisectR x - 1) (by omega) (by omega)
+    rw [hrun _ (le_refl _) (by omega), hrun _ (by omega) (by omega)] at this
+    exact absurd this (lt_irrefl _)
+  have hnew : ∀ j, b.bisectL x ≤ j → j ≤ b.bisectR x → b'.kn j = x := by
     intro j hj1 hj2
-    have hσ : insertSeq b.kn mu x j = x := by
-      rcases Nat.lt_or_ge j mu with h | h
-      · rw [bo_ins_lt h]; exact hrun j hj1 h
-      · have : j = mu := by omega
-        rw [this, bo_ins_self]
-    rw [hkn j (by omega)]
-    unfold repSeq
-    by_cases hB1 : mu ≤ p + k
-    · rw [if_pos hB1, if_neg (by omega)]; exact hσ
-    · rw [if_neg hB1]
-      by_cases hB2 : n + 1 ≤ mu
-      · rw [if_pos hB2]
-        by_cases hjw : j < p + k + 1
-        · rw [if_pos hjw]
-          have hjmu : j < mu := by omega
-          have hkj : b.kn j = x := hrun j hj1 hjmu
-          have hkpk : b.kn (p + k) = x := hrun (p + k) (by omega) (by omega)
-          have hgt : mu < n + 1 + j := by
-            by_contra hc
-            have h1' : b.kn (n + j) ≤ x := r2' _ (by omega)
-            have h2' := hT j (by omega)
-            rw [Nat.add_comm j n] at h2'
-            rw [h2', hkj] at h1'
-            linarith
-          rw [bo_ins_lt (show p + k < mu by omega), hkpk,
-            bo_ins_gt (k := n + (p + k)) (by omega) (by omega),
-            bo_ins_gt (k := n + j) (by omega) (by omega),
-            Nat.add_comm n (p + k), hT (p + k) (le_refl _), hkpk, Nat.add_comm n j, hT j (by omega), hkj]
-          ring
-        · rw [if_neg hjw]; exact hσ
-      · rw [if_neg hB2]; exact hσ
-  obtain ⟨g1, g2⟩ := Basis.run_le_mult hvk x lam mu hll (by rw [hsz]; omega) hnew
+    rw [hkn j (by omega) (by omega) (by omega)]
+    rcases Nat.lt_or_ge j (b.bisectR x) with h | h
+    · rw [bo_ins_lt h]; exact hrun j hj1 h
+    · have : j = b.bisectR x := by omega
+      rw [this, bo_ins_self]
+  obtain ⟨g1, g2⟩ := Basis.run_le_mult hvk x (b.bisectL x) (b.bisectR x) hll (by rw [hsz]; omega) hnew
   unfold Basis.mult
-  rw [← hmu, ← hlam]
   omega
 
-/-- `cnt` periodic insertions of the same value raise its multiplicity by at least `cnt`. -/
-theorem mult_insertMany (b0 : Basis K) (hv0 : b0.Valid) (k : ℕ) (hk : b0.periodic = (k : Int))
-    (hguard : b0.order + k ≤ b0.numFunctions) (x : K) (hx : b0.start ≤ x ∧ x < b0.stop) (cnt : ℕ) :
+/-- Older guarded form (the hypothesis `hguard` is not used). -/
+theorem mult_insert_periodic (b : Basis K) (hv : b.Valid) (k : ℕ) (hk : b.periodic = (k : Int))
+    (_hguard : b.order + k ≤ b.numFunctions) (x : K) (hx : b.start ≤ x ∧ x < b.stop)
+    (b' : Basis K) (C : Mat K) (hins : b.insertKnot x = .ok (b', C)) :
+    b.mult x + 1 ≤ b'.mult x :=
+  mult_insert_periodic_all b hv k hk x hx b' C hins
+
+/-- `cnt` periodic insertions of the same value raise its multiplicity by at least `cnt` (every
+valid periodic basis). -/
+theorem mult_insertMany_all (b0 : Basis K) (hv0 : b0.Valid) (k : ℕ) (hk : b0.periodic = (k : Int))
+    (x : K) (hx : b0.start ≤ x ∧ x < b0.stop) (cnt : ℕ) :
     ∀ (b : Basis K) (Cacc : Mat K) (m : ℕ), PerRefines b0 b Cacc m →
       ∀ b' C, insertMany b Cacc (List.replicate cnt x) = .ok (b', C) →
         b.mult x + cnt ≤ b'.mult x ∧ ∃ m', PerRefines b0 b' C m' := by
@@ -146,12 +128,7 @@ theorem mult_insertMany (b0 : Basis K) (hv0 : b0.Valid) (k : ℕ) (hk : b0.perio
     exact ⟨le_refl _, m, hR⟩
   | succ cnt ih =>
     intro b Cacc m hR b' C h
-    obtain ⟨b1, C1, hins, hr1⟩ := insertKnot_per_step b hR.valid k (hR.periodic_eq.trans hk)
-      (by rw [hR.order_eq, hR.num_eq]; omega) x
-      (by
-        rw [wrapVal_of_mem b x (by rw [hR.start_eq]; exact hx.1)
-          (by rw [hR.stop_eq]; exact le_of_lt hx.2), hR.stop_eq]
-        exact ne_of_lt hx.2)
+    obtain ⟨b1, C1, hins, hr1, _⟩ := insertKnot_per_step_all b hR.valid k (hR.periodic_eq.trans hk) x
     have hstep : stepIns (b, Cacc) x = .ok (b1, Mat.mul C1 Cacc) := by
       unfold stepIns
       simp only [hins]
@@ -160,10 +137,17 @@ theorem mult_insertMany (b0 : Basis K) (hv0 : b0.Valid) (k : ℕ) (hk : b0.perio
     rw [List.replicate_succ, List.foldlM_cons, hstep] at h
     have h' : insertMany b1 (Mat.mul C1 Cacc) (List.replicate cnt x) = .ok (b', C) := h
     obtain ⟨g1, g2⟩ := ih b1 (Mat.mul C1 Cacc) (m + 1) (perRefines_trans hv0 hR hr1) b' C h'
-    have hm := mult_insert_periodic b hR.valid k (hR.periodic_eq.trans hk)
-      (by rw [hR.order_eq, hR.num_eq]; omega) x
+    have hm := mult_insert_periodic_all b hR.valid k (hR.periodic_eq.trans hk) x
       ⟨by rw [hR.start_eq]; exact hx.1, by rw [hR.stop_eq]; exact hx.2⟩ b1 C1 hins
     exact ⟨by omega, g2⟩
+
+/-- Older guarded form (the hypothesis `hguard` is not used). -/
+theorem mult_insertMany (b0 : Basis K) (hv0 : b0.Valid) (k : ℕ) (hk : b0.periodic = (k : Int))
+    (_hguard : b0.order + k ≤ b0.numFunctions) (x : K) (hx : b0.start ≤ x ∧ x < b0.stop) (cnt : ℕ) :
+    ∀ (b : Basis K) (Cacc : Mat K) (m : ℕ), PerRefines b0 b Cacc m →
+      ∀ b' C, insertMany b Cacc (List.replicate cnt x) = .ok (b', C) →
+        b.mult x + cnt ≤ b'.mult x ∧ ∃ m', PerRefines b0 b' C m' :=
+  mult_insertMany_all b0 hv0 k hk x hx cnt
 
 /-- `continuity(x)` of a periodic basis at a value of the base period, when no other knot lies
 within the tolerance of `x`: `none` for multiplicity `0`, else `p - mult - 1`. -/
@@ -210,11 +194,10 @@ theorem continuity_of_exact {b : Basis K} (hv : b.Valid) (hper : 0 ≤ b.periodi
   · rw [if_neg h0, if_neg (by omega)]
 
 /-- **`hMult`**: after the insertion loop of `split` for one value `x0` of the base period of a
-periodic direction (guard `n ≥ p + k`, no other knot within the tolerance of `x0`), `x0` has
+periodic direction (every valid periodic basis; no other knot within the tolerance of `x0`), `x0` has
 multiplicity at least `p` at `bisect_left`. -/
-theorem hMult_of_exact (o : Obj K) (dir : ℕ) (hdir : dir < o.bases.size)
+theorem hMult_of_exact_all (o : Obj K) (dir : ℕ) (hdir : dir < o.bases.size)
     (hv : (o.basis dir).Valid) (k : ℕ) (hk : (o.basis dir).periodic = (k : Int))
-    (hguard : (o.basis dir).order + k ≤ (o.basis dir).numFunctions)
     (hshape : o.cps.shape.getD dir 0 = (o.basis dir).numFunctions) {tol x0 : K} (htol : 0 < tol)
     (hx : (o.basis dir).start ≤ x0 ∧ x0 < (o.basis dir).stop)
     (hexR : ∀ i, i < (o.basis dir).knots.size → (o.basis dir).kn i ≤ x0 ∨ x0 + tol ≤ (o.basis dir).kn i)
@@ -255,7 +238,7 @@ theorem hMult_of_exact (o : Obj K) (dir : ℕ) (hdir : dir < o.bases.size)
         = so := Except.ok.inj hcnt
     have hsb : so.basis dir = b' := by rw [← hso']; exact basis_set o dir hdir _ _
     rw [hshape] at hm
-    obtain ⟨hmul, m', hR⟩ := mult_insertMany b0 hv k hk hguard x0 hx cnt b0 _ 0
+    obtain ⟨hmul, m', hR⟩ := mult_insertMany_all b0 hv k hk x0 hx cnt b0 _ 0
       (perRefines_refl b0 hv) b' C hm
     have hv' : b'.Valid := hR.valid
     have hpm : b0.order ≤ b'.mult x0 := by omega
@@ -264,5 +247,18 @@ theorem hMult_of_exact (o : Obj K) (dir : ℕ) (hdir : dir < o.bases.size)
     rw [hsb]
     exact ⟨Basis.kn_of_mem_run hv' x0 _ (le_refl _) (by omega),
       Basis.kn_of_mem_run hv' x0 _ (by omega) (by omega)⟩
+
+/-- Older guarded form (the hypothesis `hguard` is not used). -/
+theorem hMult_of_exact (o : Obj K) (dir : ℕ) (hdir : dir < o.bases.size)
+    (hv : (o.basis dir).Valid) (k : ℕ) (hk : (o.basis dir).periodic = (k : Int))
+    (_hguard : (o.basis dir).order + k ≤ (o.basis dir).numFunctions)
+    (hshape : o.cps.shape.getD dir 0 = (o.basis dir).numFunctions) {tol x0 : K} (htol : 0 < tol)
+    (hx : (o.basis dir).start ≤ x0 ∧ x0 < (o.basis dir).stop)
+    (hexR : ∀ i, i < (o.basis dir).knots.size → (o.basis dir).kn i ≤ x0 ∨ x0 + tol ≤ (o.basis dir).kn i)
+    (hexL : ∀ i, i < (o.basis dir).knots.size → (o.basis dir).kn i < x0 - tol ∨ x0 ≤ (o.basis dir).kn i) :
+    ∀ so, o.splitInsert tol [x0] dir = .ok so →
+      (so.basis dir).kn ((so.basis dir).bisectL x0) = x0 ∧
+      (so.basis dir).kn ((so.basis dir).bisectL x0 + (o.basis dir).order - 1) = x0 :=
+  hMult_of_exact_all o dir hdir hv k hk hshape htol hx hexR hexL
 
 end Splipy
